@@ -2,7 +2,7 @@
    synth_case  -- the Coq model of synthesize executed on a testbench;
    shape_case  -- the shape predicate of property C03 evaluated on the dump of a
                   REAL synthesized block. *)
-From PyRTL Require Import Netlist.Sem Netlist.WFDefs Netlist.SpecHarness Pass.BasicGates Pass.Synth.
+From PyRTL Require Import Netlist.Sem Netlist.WFDefs Netlist.SpecHarness Pass.BasicGates Pass.Synth Pass.Flatten.
 
 (* rows: [wfb && synth_okb]; then one row per cycle: the value of every listed
    output re-assembled from its synthesized bits *)
@@ -68,3 +68,10 @@ Definition shapeb : bool := forallb net_shape (nets nl).
 End Shape.
 
 Definition shape_case (merge : bool) (nl : netlist) : list Z := [b2z (shapeb merge nl)].
+
+(* the flattened model netlist (Pass/Flatten.v): [ids_okb; shapeb merged; shapeb
+   unmerged] and, per cycle, the listed Outputs under Sem.run of `flatten true nl` *)
+Definition flat_case (nl : netlist) (inss : list (list (Z * Z))) (outs : list Z) : list (list Z) :=
+  [b2z (ids_okb nl); b2z (shapeb true (flatten true nl)); b2z (shapeb false (flatten false nl))]
+  :: map (fun v => map v outs)
+         (fst (run (flatten true nl) 0 (flat_state nl (ginit nl [] [])) (map (flat_ins nl) (map ins_of inss)))).
